@@ -14,45 +14,45 @@ def C08.V2.length2 {α : Type} [Add α] [Mul α] (a : V2 α) : α :=
   ((a.x * a.x) + (a.y * a.y))
 
 /-- extracted from the C++ template at T = Sym; 2 path(s) -/
-def C08.V2.normalize {α : Type} [Add α] [Mul α] [Div α] [Neg α] [LT α] [DecidableLT α] [DecidableEq α] [OfNat α 0] [OfNat α 2] (tmin : α) (sqrt : α → α) (a : V2 α) : (V2 α) :=
-  let t11 := (V2.length tmin sqrt ⟨a.x, a.y⟩)
+def C08.V2.normalize {α : Type} [Add α] [Mul α] [Div α] [Neg α] [LT α] [DecidableLT α] [DecidableEq α] [OfNat α 0] [OfNat α 2] (tmin : α) (tmax : α) (sqrt : α → α) (a : V2 α) : (V2 α) :=
+  let t11 := (V2.length tmin tmax sqrt ⟨a.x, a.y⟩)
   if t11 = (0 : α) then
     ⟨a.x, a.y⟩
   else
     ⟨(a.x / t11), (a.y / t11)⟩
 
 /-- extracted from the C++ template at T = Sym; 2 path(s) -/
-def C08.V2.normalizeExc {α : Type} [Add α] [Mul α] [Div α] [Neg α] [LT α] [DecidableLT α] [DecidableEq α] [OfNat α 0] [OfNat α 2] (tmin : α) (sqrt : α → α) (a : V2 α) : Except Exc (V2 α) :=
-  let t11 := (V2.length tmin sqrt ⟨a.x, a.y⟩)
+def C08.V2.normalizeExc {α : Type} [Add α] [Mul α] [Div α] [Neg α] [LT α] [DecidableLT α] [DecidableEq α] [OfNat α 0] [OfNat α 2] (tmin : α) (tmax : α) (sqrt : α → α) (a : V2 α) : Except Exc (V2 α) :=
+  let t11 := (V2.length tmin tmax sqrt ⟨a.x, a.y⟩)
   if t11 = (0 : α) then
     .error Exc.domainError
   else
     .ok (⟨(a.x / t11), (a.y / t11)⟩)
 
 /-- extracted from the C++ template at T = Sym; 1 path(s) -/
-def C08.V2.normalizeNonNull {α : Type} [Add α] [Mul α] [Div α] [Neg α] [LT α] [DecidableLT α] [DecidableEq α] [OfNat α 0] [OfNat α 2] (tmin : α) (sqrt : α → α) (a : V2 α) : (V2 α) :=
-  let t11 := (V2.length tmin sqrt ⟨a.x, a.y⟩)
+def C08.V2.normalizeNonNull {α : Type} [Add α] [Mul α] [Div α] [Neg α] [LT α] [DecidableLT α] [DecidableEq α] [OfNat α 0] [OfNat α 2] (tmin : α) (tmax : α) (sqrt : α → α) (a : V2 α) : (V2 α) :=
+  let t11 := (V2.length tmin tmax sqrt ⟨a.x, a.y⟩)
   ⟨(a.x / t11), (a.y / t11)⟩
 
 /-- extracted from the C++ template at T = Sym; 2 path(s) -/
-def C08.V2.normalized {α : Type} [Add α] [Mul α] [Div α] [Neg α] [LT α] [DecidableLT α] [DecidableEq α] [OfNat α 0] [OfNat α 2] (tmin : α) (sqrt : α → α) (a : V2 α) : (V2 α) :=
-  let t11 := (V2.length tmin sqrt ⟨a.x, a.y⟩)
+def C08.V2.normalized {α : Type} [Add α] [Mul α] [Div α] [Neg α] [LT α] [DecidableLT α] [DecidableEq α] [OfNat α 0] [OfNat α 2] (tmin : α) (tmax : α) (sqrt : α → α) (a : V2 α) : (V2 α) :=
+  let t11 := (V2.length tmin tmax sqrt ⟨a.x, a.y⟩)
   if t11 = (0 : α) then
     ⟨(0 : α), (0 : α)⟩
   else
     ⟨(a.x / t11), (a.y / t11)⟩
 
 /-- extracted from the C++ template at T = Sym; 2 path(s) -/
-def C08.V2.normalizedExc {α : Type} [Add α] [Mul α] [Div α] [Neg α] [LT α] [DecidableLT α] [DecidableEq α] [OfNat α 0] [OfNat α 2] (tmin : α) (sqrt : α → α) (a : V2 α) : Except Exc (V2 α) :=
-  let t11 := (V2.length tmin sqrt ⟨a.x, a.y⟩)
+def C08.V2.normalizedExc {α : Type} [Add α] [Mul α] [Div α] [Neg α] [LT α] [DecidableLT α] [DecidableEq α] [OfNat α 0] [OfNat α 2] (tmin : α) (tmax : α) (sqrt : α → α) (a : V2 α) : Except Exc (V2 α) :=
+  let t11 := (V2.length tmin tmax sqrt ⟨a.x, a.y⟩)
   if t11 = (0 : α) then
     .error Exc.domainError
   else
     .ok (⟨(a.x / t11), (a.y / t11)⟩)
 
 /-- extracted from the C++ template at T = Sym; 1 path(s) -/
-def C08.V2.normalizedNonNull {α : Type} [Add α] [Mul α] [Div α] [Neg α] [LT α] [DecidableLT α] [DecidableEq α] [OfNat α 0] [OfNat α 2] (tmin : α) (sqrt : α → α) (a : V2 α) : (V2 α) :=
-  let t11 := (V2.length tmin sqrt ⟨a.x, a.y⟩)
+def C08.V2.normalizedNonNull {α : Type} [Add α] [Mul α] [Div α] [Neg α] [LT α] [DecidableLT α] [DecidableEq α] [OfNat α 0] [OfNat α 2] (tmin : α) (tmax : α) (sqrt : α → α) (a : V2 α) : (V2 α) :=
+  let t11 := (V2.length tmin tmax sqrt ⟨a.x, a.y⟩)
   ⟨(a.x / t11), (a.y / t11)⟩
 
 /-- extracted from the C++ template at T = Sym; 1 path(s) -/
@@ -64,45 +64,45 @@ def C08.V3.length2 {α : Type} [Add α] [Mul α] (a : V3 α) : α :=
   (((a.x * a.x) + (a.y * a.y)) + (a.z * a.z))
 
 /-- extracted from the C++ template at T = Sym; 2 path(s) -/
-def C08.V3.normalize {α : Type} [Add α] [Mul α] [Div α] [Neg α] [LT α] [LE α] [DecidableLT α] [DecidableLE α] [DecidableEq α] [OfNat α 0] [OfNat α 2] (tmin : α) (sqrt : α → α) (a : V3 α) : (V3 α) :=
-  let t20 := (V3.length tmin sqrt ⟨a.x, a.y, a.z⟩)
+def C08.V3.normalize {α : Type} [Add α] [Mul α] [Div α] [Neg α] [LT α] [LE α] [DecidableLT α] [DecidableLE α] [DecidableEq α] [OfNat α 0] [OfNat α 2] (tmin : α) (tmax : α) (sqrt : α → α) (a : V3 α) : (V3 α) :=
+  let t20 := (V3.length tmin tmax sqrt ⟨a.x, a.y, a.z⟩)
   if t20 = (0 : α) then
     ⟨a.x, a.y, a.z⟩
   else
     ⟨(a.x / t20), (a.y / t20), (a.z / t20)⟩
 
 /-- extracted from the C++ template at T = Sym; 2 path(s) -/
-def C08.V3.normalizeExc {α : Type} [Add α] [Mul α] [Div α] [Neg α] [LT α] [LE α] [DecidableLT α] [DecidableLE α] [DecidableEq α] [OfNat α 0] [OfNat α 2] (tmin : α) (sqrt : α → α) (a : V3 α) : Except Exc (V3 α) :=
-  let t20 := (V3.length tmin sqrt ⟨a.x, a.y, a.z⟩)
+def C08.V3.normalizeExc {α : Type} [Add α] [Mul α] [Div α] [Neg α] [LT α] [LE α] [DecidableLT α] [DecidableLE α] [DecidableEq α] [OfNat α 0] [OfNat α 2] (tmin : α) (tmax : α) (sqrt : α → α) (a : V3 α) : Except Exc (V3 α) :=
+  let t20 := (V3.length tmin tmax sqrt ⟨a.x, a.y, a.z⟩)
   if t20 = (0 : α) then
     .error Exc.domainError
   else
     .ok (⟨(a.x / t20), (a.y / t20), (a.z / t20)⟩)
 
 /-- extracted from the C++ template at T = Sym; 1 path(s) -/
-def C08.V3.normalizeNonNull {α : Type} [Add α] [Mul α] [Div α] [Neg α] [LT α] [LE α] [DecidableLT α] [DecidableLE α] [DecidableEq α] [OfNat α 0] [OfNat α 2] (tmin : α) (sqrt : α → α) (a : V3 α) : (V3 α) :=
-  let t20 := (V3.length tmin sqrt ⟨a.x, a.y, a.z⟩)
+def C08.V3.normalizeNonNull {α : Type} [Add α] [Mul α] [Div α] [Neg α] [LT α] [LE α] [DecidableLT α] [DecidableLE α] [DecidableEq α] [OfNat α 0] [OfNat α 2] (tmin : α) (tmax : α) (sqrt : α → α) (a : V3 α) : (V3 α) :=
+  let t20 := (V3.length tmin tmax sqrt ⟨a.x, a.y, a.z⟩)
   ⟨(a.x / t20), (a.y / t20), (a.z / t20)⟩
 
 /-- extracted from the C++ template at T = Sym; 2 path(s) -/
-def C08.V3.normalized {α : Type} [Add α] [Mul α] [Div α] [Neg α] [LT α] [LE α] [DecidableLT α] [DecidableLE α] [DecidableEq α] [OfNat α 0] [OfNat α 2] (tmin : α) (sqrt : α → α) (a : V3 α) : (V3 α) :=
-  let t20 := (V3.length tmin sqrt ⟨a.x, a.y, a.z⟩)
+def C08.V3.normalized {α : Type} [Add α] [Mul α] [Div α] [Neg α] [LT α] [LE α] [DecidableLT α] [DecidableLE α] [DecidableEq α] [OfNat α 0] [OfNat α 2] (tmin : α) (tmax : α) (sqrt : α → α) (a : V3 α) : (V3 α) :=
+  let t20 := (V3.length tmin tmax sqrt ⟨a.x, a.y, a.z⟩)
   if t20 = (0 : α) then
     ⟨(0 : α), (0 : α), (0 : α)⟩
   else
     ⟨(a.x / t20), (a.y / t20), (a.z / t20)⟩
 
 /-- extracted from the C++ template at T = Sym; 2 path(s) -/
-def C08.V3.normalizedExc {α : Type} [Add α] [Mul α] [Div α] [Neg α] [LT α] [LE α] [DecidableLT α] [DecidableLE α] [DecidableEq α] [OfNat α 0] [OfNat α 2] (tmin : α) (sqrt : α → α) (a : V3 α) : Except Exc (V3 α) :=
-  let t20 := (V3.length tmin sqrt ⟨a.x, a.y, a.z⟩)
+def C08.V3.normalizedExc {α : Type} [Add α] [Mul α] [Div α] [Neg α] [LT α] [LE α] [DecidableLT α] [DecidableLE α] [DecidableEq α] [OfNat α 0] [OfNat α 2] (tmin : α) (tmax : α) (sqrt : α → α) (a : V3 α) : Except Exc (V3 α) :=
+  let t20 := (V3.length tmin tmax sqrt ⟨a.x, a.y, a.z⟩)
   if t20 = (0 : α) then
     .error Exc.domainError
   else
     .ok (⟨(a.x / t20), (a.y / t20), (a.z / t20)⟩)
 
 /-- extracted from the C++ template at T = Sym; 1 path(s) -/
-def C08.V3.normalizedNonNull {α : Type} [Add α] [Mul α] [Div α] [Neg α] [LT α] [LE α] [DecidableLT α] [DecidableLE α] [DecidableEq α] [OfNat α 0] [OfNat α 2] (tmin : α) (sqrt : α → α) (a : V3 α) : (V3 α) :=
-  let t20 := (V3.length tmin sqrt ⟨a.x, a.y, a.z⟩)
+def C08.V3.normalizedNonNull {α : Type} [Add α] [Mul α] [Div α] [Neg α] [LT α] [LE α] [DecidableLT α] [DecidableLE α] [DecidableEq α] [OfNat α 0] [OfNat α 2] (tmin : α) (tmax : α) (sqrt : α → α) (a : V3 α) : (V3 α) :=
+  let t20 := (V3.length tmin tmax sqrt ⟨a.x, a.y, a.z⟩)
   ⟨(a.x / t20), (a.y / t20), (a.z / t20)⟩
 
 /-- extracted from the C++ template at T = Sym; 1 path(s) -/
@@ -114,45 +114,45 @@ def C08.V4.length2 {α : Type} [Add α] [Mul α] (a : V4 α) : α :=
   ((((a.x * a.x) + (a.y * a.y)) + (a.z * a.z)) + (a.w * a.w))
 
 /-- extracted from the C++ template at T = Sym; 2 path(s) -/
-def C08.V4.normalize {α : Type} [Add α] [Mul α] [Div α] [Neg α] [LT α] [LE α] [DecidableLT α] [DecidableLE α] [DecidableEq α] [OfNat α 0] [OfNat α 2] (tmin : α) (sqrt : α → α) (a : V4 α) : (V4 α) :=
-  let t30 := (V4.length tmin sqrt ⟨a.x, a.y, a.z, a.w⟩)
+def C08.V4.normalize {α : Type} [Add α] [Mul α] [Div α] [Neg α] [LT α] [LE α] [DecidableLT α] [DecidableLE α] [DecidableEq α] [OfNat α 0] [OfNat α 2] (tmin : α) (tmax : α) (sqrt : α → α) (a : V4 α) : (V4 α) :=
+  let t30 := (V4.length tmin tmax sqrt ⟨a.x, a.y, a.z, a.w⟩)
   if t30 = (0 : α) then
     ⟨a.x, a.y, a.z, a.w⟩
   else
     ⟨(a.x / t30), (a.y / t30), (a.z / t30), (a.w / t30)⟩
 
 /-- extracted from the C++ template at T = Sym; 2 path(s) -/
-def C08.V4.normalizeExc {α : Type} [Add α] [Mul α] [Div α] [Neg α] [LT α] [LE α] [DecidableLT α] [DecidableLE α] [DecidableEq α] [OfNat α 0] [OfNat α 2] (tmin : α) (sqrt : α → α) (a : V4 α) : Except Exc (V4 α) :=
-  let t30 := (V4.length tmin sqrt ⟨a.x, a.y, a.z, a.w⟩)
+def C08.V4.normalizeExc {α : Type} [Add α] [Mul α] [Div α] [Neg α] [LT α] [LE α] [DecidableLT α] [DecidableLE α] [DecidableEq α] [OfNat α 0] [OfNat α 2] (tmin : α) (tmax : α) (sqrt : α → α) (a : V4 α) : Except Exc (V4 α) :=
+  let t30 := (V4.length tmin tmax sqrt ⟨a.x, a.y, a.z, a.w⟩)
   if t30 = (0 : α) then
     .error Exc.domainError
   else
     .ok (⟨(a.x / t30), (a.y / t30), (a.z / t30), (a.w / t30)⟩)
 
 /-- extracted from the C++ template at T = Sym; 1 path(s) -/
-def C08.V4.normalizeNonNull {α : Type} [Add α] [Mul α] [Div α] [Neg α] [LT α] [LE α] [DecidableLT α] [DecidableLE α] [DecidableEq α] [OfNat α 0] [OfNat α 2] (tmin : α) (sqrt : α → α) (a : V4 α) : (V4 α) :=
-  let t30 := (V4.length tmin sqrt ⟨a.x, a.y, a.z, a.w⟩)
+def C08.V4.normalizeNonNull {α : Type} [Add α] [Mul α] [Div α] [Neg α] [LT α] [LE α] [DecidableLT α] [DecidableLE α] [DecidableEq α] [OfNat α 0] [OfNat α 2] (tmin : α) (tmax : α) (sqrt : α → α) (a : V4 α) : (V4 α) :=
+  let t30 := (V4.length tmin tmax sqrt ⟨a.x, a.y, a.z, a.w⟩)
   ⟨(a.x / t30), (a.y / t30), (a.z / t30), (a.w / t30)⟩
 
 /-- extracted from the C++ template at T = Sym; 2 path(s) -/
-def C08.V4.normalized {α : Type} [Add α] [Mul α] [Div α] [Neg α] [LT α] [LE α] [DecidableLT α] [DecidableLE α] [DecidableEq α] [OfNat α 0] [OfNat α 2] (tmin : α) (sqrt : α → α) (a : V4 α) : (V4 α) :=
-  let t30 := (V4.length tmin sqrt ⟨a.x, a.y, a.z, a.w⟩)
+def C08.V4.normalized {α : Type} [Add α] [Mul α] [Div α] [Neg α] [LT α] [LE α] [DecidableLT α] [DecidableLE α] [DecidableEq α] [OfNat α 0] [OfNat α 2] (tmin : α) (tmax : α) (sqrt : α → α) (a : V4 α) : (V4 α) :=
+  let t30 := (V4.length tmin tmax sqrt ⟨a.x, a.y, a.z, a.w⟩)
   if t30 = (0 : α) then
     ⟨(0 : α), (0 : α), (0 : α), (0 : α)⟩
   else
     ⟨(a.x / t30), (a.y / t30), (a.z / t30), (a.w / t30)⟩
 
 /-- extracted from the C++ template at T = Sym; 2 path(s) -/
-def C08.V4.normalizedExc {α : Type} [Add α] [Mul α] [Div α] [Neg α] [LT α] [LE α] [DecidableLT α] [DecidableLE α] [DecidableEq α] [OfNat α 0] [OfNat α 2] (tmin : α) (sqrt : α → α) (a : V4 α) : Except Exc (V4 α) :=
-  let t30 := (V4.length tmin sqrt ⟨a.x, a.y, a.z, a.w⟩)
+def C08.V4.normalizedExc {α : Type} [Add α] [Mul α] [Div α] [Neg α] [LT α] [LE α] [DecidableLT α] [DecidableLE α] [DecidableEq α] [OfNat α 0] [OfNat α 2] (tmin : α) (tmax : α) (sqrt : α → α) (a : V4 α) : Except Exc (V4 α) :=
+  let t30 := (V4.length tmin tmax sqrt ⟨a.x, a.y, a.z, a.w⟩)
   if t30 = (0 : α) then
     .error Exc.domainError
   else
     .ok (⟨(a.x / t30), (a.y / t30), (a.z / t30), (a.w / t30)⟩)
 
 /-- extracted from the C++ template at T = Sym; 1 path(s) -/
-def C08.V4.normalizedNonNull {α : Type} [Add α] [Mul α] [Div α] [Neg α] [LT α] [LE α] [DecidableLT α] [DecidableLE α] [DecidableEq α] [OfNat α 0] [OfNat α 2] (tmin : α) (sqrt : α → α) (a : V4 α) : (V4 α) :=
-  let t30 := (V4.length tmin sqrt ⟨a.x, a.y, a.z, a.w⟩)
+def C08.V4.normalizedNonNull {α : Type} [Add α] [Mul α] [Div α] [Neg α] [LT α] [LE α] [DecidableLT α] [DecidableLE α] [DecidableEq α] [OfNat α 0] [OfNat α 2] (tmin : α) (tmax : α) (sqrt : α → α) (a : V4 α) : (V4 α) :=
+  let t30 := (V4.length tmin tmax sqrt ⟨a.x, a.y, a.z, a.w⟩)
   ⟨(a.x / t30), (a.y / t30), (a.z / t30), (a.w / t30)⟩
 
 end ImathVerif.Gen
